@@ -54,7 +54,10 @@ def run_z3(text, rlimit=None, wall=None, binary=None, extra=()):
 	return _run([binary or Z3_BIN, '-smt2', f'rlimit={rlimit or RLIMIT}'] + list(extra), text, wall or WALL)
 
 
-def portfolio(text, expect_sat=False):
+UNKNOWN_SEEN = [0]      # obligations that came back unknown in this run (only non-zero on changed code)
+
+
+def portfolio(text, expect_sat=False, reduced=False):
 	"""z3 5.1 (default, then E-matching only, then another seed), z3 4.8.12, cvc5: first definite answer wins.
 	Budgets are rlimits (deterministic); the wall clock is a safety net."""
 	total = 0.0
@@ -79,6 +82,10 @@ def portfolio(text, expect_sat=False):
 		# bit-precise floating-point queries: bit-blasting time is the cost, not quantifier luck - one long z3 run, then cvc5
 		attempts = [('z3-5.1', lambda: run_z3(text, rlimit=20 * RLIMIT, wall=WALL * 2)),
 		            ('cvc5-1.0.3', lambda: run_cvc5(text, wall=WALL))]
+	if reduced:
+		# several obligations of this run already exhausted the whole portfolio: the run is undecided anyway, the remaining open
+		# obligations get the first four attempts only (keeps a check on changed code from taking hours)
+		attempts = attempts[:4]
 	last = 'unknown'
 	for name, f in attempts:
 		v, secs = f()
@@ -131,7 +138,9 @@ def discharge(obligations, jobs=16, both=False, log=None):
 			v, secs = run_z3(texts[id(ob)], rlimit=RLIMIT // 20, wall=20)
 			return ob, (v if v in ('sat', 'unsat') else 'unknown'), 'z3-5.1', secs, None
 		text = texts[id(ob)]
-		v, backend, secs = portfolio(text, expect_sat)
+		v, backend, secs = portfolio(text, expect_sat, reduced=UNKNOWN_SEEN[0] >= 6)
+		if v not in ('sat', 'unsat'):
+			UNKNOWN_SEEN[0] += 1
 		second = None
 		if both and not expect_sat and v in ('sat', 'unsat') and not backend.startswith('cvc5'):
 			v2, s2 = run_cvc5(text)
